@@ -4,6 +4,9 @@
 -/
 import Cpf.Query.Listener
 import Cpf.Query.Cli
+import Cpf.Query.WF
+import Cpf.Query.Console
+import Cpf.Query.Output
 import Cpf.Generated.Grammar
 
 open Cpf.Query Cpf.Go Cpf.Generated
@@ -47,6 +50,27 @@ def handle (fields : List String) : List String :=
   | ["parse", q] =>
       match parseQuery lexRules grammar startRule q.toList with
       | .ok pq => renderParsed pq
+      | .diag m => ["diag", m]
+      | .panic m => ["panic", m]
+  | ["wf", q] =>
+      match lex lexRules q.toList with
+      | (ts, 0) =>
+          match (parsesOf grammar (fuelFor ts) startRule ts) with
+          | [] => ["reject"]
+          | trees => [if trees.all wfTree then "1" else "0", toString trees.length]
+      | _ => ["reject-lex"]
+  | "console" :: chunks =>
+      -- transcript of the console model with the identity as `answer` (the lines that get answered)
+      let cs := chunks.map String.toList
+      (Console.console String.ofList (cs.flatten.length + 1) ⟨[], cs⟩)
+  | ["output", q] =>
+      -- the row layout the model predicts for one combination: per SELECT item `lit:<text>` or `val:<expr>`
+      match prepare q.toList with
+      | .ok p =>
+          "ok" :: (p.pq.selectOutput.flatMap (itemCells [])).map (fun c =>
+            match c with
+            | .lit s => "lit:" ++ s
+            | .val e _ => "val:" ++ e)
       | .diag m => ["diag", m]
       | .panic m => ["panic", m]
   | ["cond", q] =>
